@@ -8,7 +8,7 @@ from checks.c06 import positive, close, compare, normalised
 
 PID = "C07"
 RULE = ("Hypothesis-generated (overall degree function as a positive table or a library distribution; 1..4 clique "
-        "topologies with a probability vector summing to 1; degree range 0 <= low < high <= 12 (quick) / 20; delta "
+        "topologies with a probability vector summing to 1; degree range 0 <= low < high <= 12 (quick) / 20, plus short ranges around 250..400 for <= 2 topologies; probability vectors may contain exact zeros beyond the first entry; delta "
         "target inside, on the boundary of, or outside the range; loader split/delta; constructed directly or through "
         "the dispatcher). Oracle: independent enumeration of all splits (rel. 1e-9). Non-trivial = range with >= 2 "
         "degrees and >= 2 topologies; distinct = distinct canonical JSON")
@@ -20,15 +20,29 @@ BUDGET = {"quick": (16, 200), "thorough": (16, 3000)}
 def case_strategy(draw, tier):
     T = draw(st.integers(1, 4))
     raw = [draw(st.floats(0.05, 1.0)) for _ in range(T)]
+    # exact zeros are legal probabilities; the first topology keeps positive mass so that every k has a split
+    # of positive weight (otherwise "in proportion to" is undefined)
+    for i in range(1, T):
+        if draw(st.integers(0, 5)) == 5:
+            raw[i] = 0.0
     s = sum(raw)
     probs = [x / s for x in raw]
     hi_max = 12 if tier == "quick" else 20
     low = draw(st.one_of(st.integers(0, 3), st.integers(0, hi_max - 1)))
     high = draw(st.integers(low + 1, hi_max))
+    if T <= 2 and draw(st.integers(0, 7)) == 7:
+        # large degrees (beyond CPython's small-int cache), short range
+        low = draw(st.integers(250, 400))
+        high = low + draw(st.integers(1, 4))
+        hi_max = high
     fp = draw(st.one_of(
         st.fixed_dictionaries({"kind": st.just("table"), "seed": st.integers(0, 10 ** 6)}),
         st.fixed_dictionaries({"kind": st.just("exponential"), "a": st.floats(0.05, 2.0)}),
         st.fixed_dictionaries({"kind": st.just("poisson"), "m": st.floats(0.5, 8.0)})))
+    if low >= 100:
+        # keep the degree function comfortably positive on the range (a Poisson with small mean underflows to 0
+        # there, and a range of total mass 0 can not be normalised)
+        fp = {"kind": "table", "seed": draw(st.integers(0, 10 ** 6))}
     loader = draw(st.sampled_from(["split", "split", "delta", "delta"]))
     c = {"loader": loader, "path": draw(st.sampled_from(["class", "dispatch_enum", "dispatch_str"])),
          "probs": probs, "range": [low, high], "fp": fp}
@@ -42,11 +56,15 @@ def strategy(tier):
 
 
 def splits(k, T):
-    """all (j_1..j_T) with sum_t t*j_t = k."""
-    rngs = [range(k // t + 1) for t in range(1, T + 1)]
-    for j in itertools.product(*rngs):
-        if sum(t * x for t, x in zip(range(1, T + 1), j)) == k:
-            yield j
+    """all (j_1..j_T) with sum_t t*j_t = k (own recursion, highest topology first)."""
+    def rec(rem, t):
+        if t == 1:
+            yield (rem,)
+            return
+        for x in range(rem // t + 1):
+            for rest in rec(rem - x * t, t - 1):
+                yield rest + (x,)
+    return rec(k, T)
 
 
 def check(case):
